@@ -79,7 +79,6 @@ _meta_lock = threading.Lock()
 
 def _tlc_cmd(module, cfg, metadir, workers, extra, xmx):
     return ["java", "-Xss1g", "-Xmx%s" % xmx, "-XX:+UseParallelGC",
-            "-Dtlc2.tool.fp.FPSet.impl=tlc2.tool.fp.OffHeapDiskFPSet",
             "-cp", JAR, "tlc2.TLC", "-workers", str(workers), "-config", cfg,
             "-metadir", metadir, "-cleanup", "-noGenerateSpecTE"] + extra + [module]
 
@@ -178,7 +177,7 @@ def mc(module, cfg, wd, expect_ok=True, need_actions=(), workers=None, timeout=1
     A violated invariant is returned as stats['violated'] (the caller decides what it means:
     a defect switch that is ON must be violated, the repaired design must not)."""
     rc, out = tlc(module + ".tla", os.path.join(SPEC, cfg), wd, workers=workers,
-                  extra=["-coverage", "1"] + (extra or []), timeout=timeout, xmx=xmx)
+                  extra=(["-coverage", "1"] if need_actions else []) + (extra or []), timeout=timeout, xmx=xmx)
     st = tlc_stats(out)
     viol = re.findall(r"Error: (Invariant \w+ is violated|Action property \w+ is violated|Temporal properties were violated|Deadlock reached)", out)
     bad = tlc_failed(rc, out)
